@@ -545,6 +545,60 @@ func (crdtFamily) Gen(n int, seed int64, mode, tier string) []interface{} {
 		created := map[string]bool{}
 		emitted := make([]int, 3)
 		switch mode {
+		case "tenants":
+			// C17: the same filters and topics under two or three mount points; nothing may cross
+			mpl := []string{"ta", "tb", "_default"}[:2+rng.Intn(2)]
+			fl := []string{"a", "+", "#", "", "b"}
+			tl := []string{"a", "", "b"}
+			clk := int64(100)
+			for _, mp := range mpl {
+				for j := 0; j < 2+rng.Intn(5); j++ {
+					clk++
+					ops = append(ops, crdtOp{Op: "sub_create", N: 0, ID: "s-" + mp, Pat: mp + "/" + randLevels(rng, fl, 3), QoS: int32(rng.Intn(3)), Clk: clk})
+				}
+				clk++
+				ops = append(ops, crdtOp{Op: "sub_create", N: 0, ID: "s-" + mp, Pat: mp + "/#", QoS: 0, Clk: clk})
+				for j := 0; j < 1+rng.Intn(3); j++ {
+					clk++
+					ops = append(ops, crdtOp{Op: "ret_set", N: 0, Pub: &jPub{T: mp + "/" + randLevels(rng, tl, 3), P: "r-" + mp, Q: 0, R: true}, Clk: clk})
+				}
+			}
+			for q := 0; q < 6; q++ {
+				mp := mpl[rng.Intn(len(mpl))]
+				ops = append(ops, crdtOp{Op: "by_pattern", N: 0, Pat: mp + "/" + randLevels(rng, tl, 3)})
+				ops = append(ops, crdtOp{Op: "ret_get", N: 0, Pat: mp + "/" + []string{"#", "+", "+/#", "a/#", "+/+"}[rng.Intn(5)]})
+			}
+			ops = append(ops, crdtOp{Op: "check", N: 0, K: 1})
+		case "retained":
+			// C07 (store level): histories of retained publishes and clears over topics with shared
+			// prefixes on replica 0, replicated (shuffled, duplicated) to replica 1, Get with many filters
+			rt := []string{"mp/a", "mp/a/b", "mp/a/b/c", "mp/a/c", "mp/b", "mp/b/a", "mp/", "mp//a"}
+			rf := []string{"a", "b", "c", "+", "#", ""}
+			clk := int64(100)
+			steps := 2 + rng.Intn(28)
+			for j := 0; j < steps; j++ {
+				clk += int64(1 + rng.Intn(3))
+				t := rt[rng.Intn(len(rt))]
+				if rng.Intn(4) == 0 {
+					ops = append(ops, crdtOp{Op: "ret_delete", N: 0, Pat: t, Clk: clk})
+				} else {
+					ops = append(ops, crdtOp{Op: "ret_set", N: 0, Pub: &jPub{T: t, P: fmt.Sprintf("p%d", j), Q: int32(rng.Intn(3)), R: true}, Clk: clk})
+				}
+				if rng.Intn(5) == 0 {
+					ops = append(ops, crdtOp{Op: "ret_get", N: 0, Pat: "mp/" + randLevels(rng, rf, 3)})
+				}
+			}
+			for _, k := range rng.Perm(steps) {
+				ops = append(ops, crdtOp{Op: "deliver", Src: 0, N: 1, K: k})
+				if rng.Intn(4) == 0 {
+					ops = append(ops, crdtOp{Op: "deliver", Src: 0, N: 1, K: rng.Intn(steps)})
+				}
+			}
+			for q := 0; q < 8; q++ {
+				f := "mp/" + randLevels(rng, rf, 3)
+				ops = append(ops, crdtOp{Op: "ret_get", N: 0, Pat: f}, crdtOp{Op: "ret_get", N: 1, Pat: f})
+			}
+			ops = append(ops, crdtOp{Op: "check", N: 0, K: 1}, crdtOp{Op: "check", N: 1, K: 1})
 		case "subs":
 			// C01: subscribe / unsubscribe / re-subscribe histories on replica 0 (increasing clock),
 			// replica 1 receives the broadcasts shuffled and duplicated, replica 2 in order with
